@@ -114,7 +114,7 @@ func RunConn(p *Proxy, s ConnScript, tag string) *ConnResult {
 				res.Err = "h2 write: " + err.Error()
 				break
 			}
-			Wait()
+			peer.AwaitResponse(sid, nil)
 			r := peer.Response(sid)
 			res.Statuses = append(res.Statuses, r.Status)
 			if r.Status == "" {
